@@ -13,6 +13,7 @@ import contextlib
 import hashlib
 import json
 import sqlite3
+import time
 
 from stepup.core.enums import FileState, HashUpdateCause, Need, StepState
 from stepup.core.exceptions import ConsistencyError
@@ -57,9 +58,14 @@ def hash_id(hash_json: str | None):
     return _DIGEST_TO_ID.get(bytes(h.digest), "?")
 
 
+QUERY_DEADLINE_S = 6.0
+
+
 def classify(exc: BaseException) -> str:
     if isinstance(exc, UsageError):
         return "usage"
+    if isinstance(exc, sqlite3.OperationalError) and "interrupted" in str(exc):
+        return "hang"
     return "internal"
 
 
@@ -76,6 +82,14 @@ class Impl:
         await self.wf.initialize()
         self.sched = Scheduler(self.wf, db=self.db)
         await self.sched.initialize(None)
+        # watchdog: a statement that runs longer than QUERY_DEADLINE_S (a recursive query that
+        # does not terminate) is interrupted by SQLite and recorded as outcome "hang"
+        self._deadline = None
+
+        def progress():
+            return 1 if (self._deadline is not None and time.monotonic() > self._deadline) else 0
+
+        self.db._con.set_progress_handler(progress, 200000)
 
     def close(self):
         self.stack.close()
@@ -90,16 +104,17 @@ class Impl:
 
     # -- one transaction ----------------------------------------------------------------------
     async def apply(self, op) -> tuple[str, str]:
+        self._deadline = time.monotonic() + QUERY_DEADLINE_S
         try:
             async with self.db:
                 self._do(op)
-                if op[0] != "check":
-                    pass
             return "ok", ""
         except BaseException as e:  # noqa: BLE001 - classification is the point
             if isinstance(e, (KeyboardInterrupt, SystemExit, asyncio.CancelledError)):
                 raise
             return classify(e), f"{type(e).__name__}: {e}"
+        finally:
+            self._deadline = None
 
     def _do(self, op):
         wf = self.wf
@@ -157,10 +172,13 @@ class Impl:
 
     async def dispatch(self):
         """The real Scheduler.pop_next_job; returns (label, kind) or None, or ('!', error)."""
+        self._deadline = time.monotonic() + QUERY_DEADLINE_S
         try:
             job = await self.sched.pop_next_job()
         except BaseException as e:  # noqa: BLE001
             return ("!", f"{type(e).__name__}: {e}")
+        finally:
+            self._deadline = None
         if job is None:
             return None
         kind = type(job).__name__
@@ -697,7 +715,8 @@ def cq_dump(d):
     return f"(mkDump {nodes} {files} {steps} {deps} {shash} {envs})"
 
 
-OUTC = {"ok": "OOk", "usage": "OUsage", "internal": "OInternal"}
+# a non-terminating statement never commits: for the comparison with the model it is an internal failure
+OUTC = {"ok": "OOk", "usage": "OUsage", "internal": "OInternal", "hang": "OInternal"}
 
 
 def cq_trace(trace, defer_cap):
